@@ -3,6 +3,14 @@
 package main
 
 import (
+	"context"
+	"net/http"
+	"net/http/httptest"
+
+	"k8s.io/client-go/rest"
+
+	ctrlconfig "github.com/jcmoraisjr/haproxy-ingress/pkg/controller/config"
+
 	"bufio"
 	"encoding/json"
 	"flag"
@@ -18,6 +26,7 @@ import (
 
 type group struct {
 	Kw    []string   `json:"kw"`
+	Opt   *string    `json:"opt,omitempty"` // the raw value of --disable-config-keywords: parsed by the controller itself
 	Texts [][]string `json:"texts"`
 }
 
@@ -25,6 +34,7 @@ type rec struct {
 	ID    string     `json:"id"`
 	Src   string     `json:"src"` // ingress | service | both
 	Kw    [][]string `json:"kw"`
+	KwOpt []string   `json:"kwopt"` // characters of the raw option value ([] when the list was given directly)
 	Text  []string   `json:"text"`
 	Lines [][]string `json:"lines"`
 }
@@ -73,6 +83,17 @@ func main() {
 	enc.SetEscapeHTML(false)
 	n := 0
 	for gi, g := range groups {
+		kwopt := []string{}
+		if g.Opt != nil {
+			// the option goes through the controller's own command-line handling (config.CreateWithConfig)
+			kws, err := parseOption(*g.Opt, *work)
+			if err != nil {
+				fmt.Fprintln(os.Stderr, err)
+				os.Exit(2)
+			}
+			g.Kw = kws
+			kwopt = chars(*g.Opt)
+		}
 		var kwc [][]string
 		for _, k := range g.Kw {
 			kwc = append(kwc, chars(k))
@@ -143,7 +164,7 @@ func main() {
 			}
 			fh.Close()
 			for i := start; i < end; i++ {
-				r := rec{ID: fmt.Sprintf("g%d-%d", gi, i), Src: srcs[i], Kw: kwc, Text: g.Texts[i], Lines: [][]string{}}
+				r := rec{ID: fmt.Sprintf("g%d-%d", gi, i), Src: srcs[i], Kw: kwc, KwOpt: kwopt, Text: g.Texts[i], Lines: [][]string{}}
 				if r.Text == nil {
 					r.Text = []string{}
 				}
@@ -159,4 +180,39 @@ func main() {
 		}
 	}
 	fmt.Printf("{\"backends\":%d}\n", n)
+}
+
+var stubAPI *httptest.Server
+
+// parseOption hands the raw option value to config.CreateWithConfig, with a stub API server that only answers its
+// connectivity check, and returns the keyword list the controller would run with.
+func parseOption(value, work string) ([]string, error) {
+	if stubAPI == nil {
+		stubAPI = httptest.NewServer(http.HandlerFunc(func(w http.ResponseWriter, r *http.Request) {
+			w.Header().Set("Content-Type", "application/json")
+			if strings.HasSuffix(r.URL.Path, "/services") {
+				_, _ = w.Write([]byte(`{"kind":"ServiceList","apiVersion":"v1","metadata":{},"items":[]}`))
+				return
+			}
+			w.WriteHeader(http.StatusNotFound)
+			_, _ = w.Write([]byte(`{"kind":"Status","apiVersion":"v1","status":"Failure","reason":"NotFound","code":404}`))
+		}))
+	}
+	dir, err := os.MkdirTemp(work, "opt")
+	if err != nil {
+		return nil, err
+	}
+	defer os.RemoveAll(dir)
+	opt := ctrlconfig.NewOptions()
+	opt.UpdateStatus = false
+	opt.WatchGateway = false
+	opt.LocalFSPrefix = dir
+	opt.DisableConfigKeywords = value
+	ctx, cancel := context.WithCancel(context.Background())
+	defer cancel()
+	cfg, err := ctrlconfig.CreateWithConfig(ctx, &rest.Config{Host: stubAPI.URL}, opt)
+	if err != nil {
+		return nil, err
+	}
+	return cfg.DisableKeywords, nil
 }
